@@ -53,6 +53,36 @@ def _repo_ident():
         return "unknown", "unknown"
 
 
+def _expand(arg):
+    """frontier expansion of one unit, executed in a forked child: the parent process never runs library code, so every
+    worker task starts from pristine library state and its recorded history is complete"""
+    name, bound, target = arg
+    fn = _UNITS[name][0]
+    try:
+        res, roots = engine.expand_frontier(name, fn, _TIER, _SEED, bound, target=target)
+        return res, roots
+    except engine.HarnessNondeterminism as e:
+        r = engine.Result()
+        r.errors.append(f"HARNESS-NONDETERMINISM {e}")
+        return r, []
+
+
+def _rerun(arg):
+    """determinism guard, executed in a forked child (pristine library state): does the execution violate sig again?"""
+    unit, prefix, sig = arg
+    try:
+        ctx2 = engine.run_once(unit, _UNITS[unit][0], prefix, _TIER, _SEED, replaying=True)
+        return any(x.sig == sig for x in ctx2.violations)
+    except Exception:  # noqa
+        return False
+
+
+def _in_child(fn, arg):
+    ctxmp = multiprocessing.get_context("fork")
+    with ctxmp.Pool(1, maxtasksperchild=1) as pool:
+        return pool.apply(fn, (arg,))
+
+
 def _task(arg):
     unit, root, bound, budget, max_exec = arg
     fn = _UNITS[unit][0]
@@ -109,12 +139,7 @@ def run_check(pid, tier, seed, workers, only_unit=None, dump_instances=False, ti
         if _FAILFAST and _unlisted(total.violations):
             break
         tu = time.time()
-        try:
-            res, roots = engine.expand_frontier(name, fn, tier, seed, bound,
-                                                target=max(1, workers * 12) if workers > 1 else 1)
-        except engine.HarnessNondeterminism as e:
-            res, roots = engine.Result(), []
-            res.errors.append(f"HARNESS-NONDETERMINISM {e}")
+        res, roots = _in_child(_expand, (name, bound, max(1, workers * 12) if workers > 1 else 1))
         if roots:
             if workers > 1 and len(roots) > 1:
                 with ctxmp.Pool(workers, maxtasksperchild=1) as pool:  # every task starts on a fresh fork of the parent
@@ -191,11 +216,7 @@ def run_check(pid, tier, seed, workers, only_unit=None, dump_instances=False, ti
         v = min(vs, key=lambda x: (len(x.choices), sum(c[1] for c in x.choices), x.instance))
         # determinism guard: re-run this execution on fresh objects
         prefix = [c[1] for c in v.choices]
-        try:
-            ctx2 = engine.run_once(v.unit, _UNITS[v.unit][0], prefix, tier, seed, replaying=True)
-            again = any(x.sig == sig for x in ctx2.violations)
-        except Exception as e:  # noqa
-            again = False
+        again = _in_child(_rerun, (v.unit, prefix, sig))
         path = os.path.join("replays", f"{pid}-{engine.hhex(sig)[:10]}.json")
         if not again:
             # Not reproducible in isolation.  Either the harness is nondeterministic (a harness error), or the LIBRARY
